@@ -165,6 +165,10 @@ def gen_cases(rng, tier):
     # with sub-directories, spaces and a backslash (the listed path must be the path written)
     extra = [({'resource-bytes': None, 'datapackage-bytes': None}, None), ({'resource-hash': None, 'datapackage-hash': None}, None),
              (None, ['data\\r 1.csv', 'sub/dir/r2.csv']), (None, ['cafe\u0301.csv', 'd\u0061\u0308ta/\u00e9.csv'])]
+    # hidden files and directories (a leading dot is part of the name), and a file name longer than the file system allows
+    extra += [(None, ['.hidden.csv', '.cache/part.csv']), (None, ['./plain.csv', '.d/.e.csv'])]
+    cases.append({'kind': 'crash', 'pkg': [[{'a': j, 's': 'x'} for j in range(2)]], 'format': 'csv', 'shape': [2], 'chunk': 48,
+                  'paths': ['n' * 300 + '.csv'], 'may_fail': True})
     if tier == 'thorough':
         extra += [({'resource-bytes': None}, ['a/b.csv', None]), ({'resource-rowcount': None, 'datapackage-bytes': None}, ['x\\y\\z.csv', 'x/y.csv'])]
     cases.append({'kind': 'crash', 'pkg': [[{'a': 10 * i + j, 's': 'é%d' % j} for j in range(n)] for i, n in enumerate([3, 2])], 'format': 'csv',
@@ -209,6 +213,12 @@ def run_impl(case):
     os.makedirs(base, exist_ok=True)
     d0 = os.path.join(base, 'clean')
     (rc, clean), = fork_map(lambda _: dump_with_faults(case, d0, None), [0])
+    if case.get('may_fail') and (clean is None or 'error' in clean):
+        # a dump the file system refuses (a file name longer than it allows): the run fails, and then nothing in the directory
+        # may tell of a complete package
+        r = inspect(d0, ()) if os.path.isdir(d0) else {'descriptor': 'absent'}
+        shutil.rmtree(base, ignore_errors=True)
+        return {'refused': True, 'after': r}
     if clean is None or 'error' in clean:
         return {'error': 'clean run failed: %r' % (clean,)}
     ops = clean['ops']
@@ -291,6 +301,11 @@ def run_impl(case):
 def oracle(case, out):
     if 'error' in out:
         return out['error']
+    if out.get('refused'):
+        a = out['after']
+        if a['descriptor'] == 'parseable' and a['bad']:
+            return 'the dump failed, yet a parseable datapackage.json is present and %s' % '; '.join(a['bad'])
+        return None
     if out['final']['descriptor'] != 'parseable' or out['final']['bad']:
         return 'after a complete dump: %r' % out['final']
     if out['parseable_proper_prefixes']:
@@ -324,7 +339,7 @@ def collapse(seq):
 
 
 def coq_term(case, out):
-    if 'error' in out:
+    if 'error' in out or out.get('refused'):
         return None
     if case['format'] in ('excel', 'xlsx'):
         return None      # the workbook is saved by name, not written through the handle the model follows: decided by the oracle
